@@ -56,7 +56,9 @@ RX = {
     # as-path regexes (the code never evaluates these: known finding C14-1)
     401: '65001', 402: '^65001 6500[0-9]', 403: '_6500[12]_', 404: '^$', 405: '\\{65001,', 406: '^\\(6500[0-9]', 407: '65002$',
     408: '_65004_.*_65001$', 409: '^[0-9]+$', 410: '\\[.*\\]', 411: ' $',
-    412: '_99999999999_',     # a single form whose number does not fit u32: SingleAsPathMatch::new gives it to the regex branch
+    412: '_99999999999_', 413: '^65001-99999999999$',
+    # one pattern per segment form that pins its brackets and its separator
+    414: '\\(65000 65004\\)', 415: '\\[65001,65002\\]', 416: '^65001 65002$', 417: '\\{65001,65002\\}', 418: '^65004 65002 65001$',     # a single form whose number does not fit u32: SingleAsPathMatch::new gives it to the regex branch
 }
 def rx_entry(i): return [1, i, list(RX[i].encode())]
 
@@ -750,10 +752,12 @@ def n6(x, m): return [6, (V6BASE | x) >> 64, (V6BASE | x) & ((1 << 64) - 1), m]
 
 class Prop:
     pid = 'C14'
+    ops_field = 'ops'          # framework shrinker: delta-debugging over the operation list
     props_file = 'Props/C14.v'
     required_theorems = ['eval_code_eq_spec', 'eval_spec_is_functional', 'aspath_regex_ignored_pre_fix_refuted',
                          'eval_never_panics_api', 'eval_never_panics_wire', 'crud_preserves_references',
-                         'crud_referenced_frozen', 'global_preserves_references', 'global_referenced_frozen', 'wire_aspath_decoded', 'wire_aspath_rendered', 'api_built_assignments_wf',
+                         'crud_referenced_frozen', 'global_preserves_references', 'global_referenced_frozen', 'wire_aspath_decoded', 'wire_aspath_rendered', 'api_built_assignments_wf', 'prefix_merge_content', 'stored_sets_keys_unique',
+                         'crud_total_on_canonical_prefixes', 'peer_effective_export_wf',
                          'prefix_set_longest_match_refuted', 'aspath_patterns_refuted', 'arithmetic_and_api_refuted']
     correspondence_name = ('Model/Policy.v eval_code + Model/PolicyTable.v crud_step vs table/src/policy.rs PolicyTable / '
                            'apply_import / apply_export (harness/hx-policy); Model/PolicyGlobal.v gstep vs daemon/src/event/mod.rs Global '
